@@ -2,9 +2,9 @@ package wl
 
 import (
 	"context"
-	"os"
 	"encoding/binary"
 	"fmt"
+	"os"
 	"sort"
 	"strings"
 	"sync"
@@ -58,16 +58,16 @@ type ConsStep struct {
 }
 
 type ConsPlan struct {
-	Brokers int
-	Topics  []string
-	Parts   []int32
-	Prefill [][]int   // records per topic/partition before the consumer starts
-	Start   [][]int64 // start offset per topic/partition (explicit partitions)
-	NTxn    int
-	TxnTO   time.Duration
-	Cfg     ConsCfg
-	Steps   []ConsStep
-	LeaveOpen bool // leave the last transactions open at the end (C05)
+	Brokers    int
+	Topics     []string
+	Parts      []int32
+	Prefill    [][]int   // records per topic/partition before the consumer starts
+	Start      [][]int64 // start offset per topic/partition (explicit partitions)
+	NTxn       int
+	TxnTO      time.Duration
+	Cfg        ConsCfg
+	Steps      []ConsStep
+	LeaveOpen  bool // leave the last transactions open at the end (C05)
 	CloseEarly bool // close the consumer right after the steps, without draining (discards buffered fetches)
 }
 
@@ -232,39 +232,39 @@ type TxnTruth struct {
 }
 
 type ConsObs struct {
-	Plan     ConsPlan
-	Log      *bubble.History
-	Env      *bubble.Env
-	Client   *kgo.Client
-	Returned []Returned
-	ByTP     map[TP][]Returned
-	OrderViolation string
-	Txns     map[int64]*TxnTruth
-	Truth    map[TP][]bubble.LogRec // raw log per partition at the end
-	HWM      map[TP]int64
-	Aborted  map[TP]map[int64]bool // offsets of aborted or open transactional data records
-	OpenTxn  map[TP]map[int64]bool // offsets of data records of still-open transactions
-	Drained  bool
-	ClosedEarly bool
-	TruthStable bool
-	StepKinds []string
+	Plan               ConsPlan
+	Log                *bubble.History
+	Env                *bubble.Env
+	Client             *kgo.Client
+	Returned           []Returned
+	ByTP               map[TP][]Returned
+	OrderViolation     string
+	Txns               map[int64]*TxnTruth
+	Truth              map[TP][]bubble.LogRec // raw log per partition at the end
+	HWM                map[TP]int64
+	Aborted            map[TP]map[int64]bool // offsets of aborted or open transactional data records
+	OpenTxn            map[TP]map[int64]bool // offsets of data records of still-open transactions
+	Drained            bool
+	ClosedEarly        bool
+	TruthStable        bool
+	StepKinds          []string
 	FaultWhileBuffered bool
-	PartialTake  bool
-	PauseStrip   bool
-	SessionErr   bool
-	Moves        int
+	PartialTake        bool
+	PauseStrip         bool
+	SessionErr         bool
+	Moves              int
 	// hooks
-	hookMu     sync.Mutex
-	BufCount   map[*kgo.Record]int
-	UnbufCount map[*kgo.Record]int
-	UnbufPolled map[*kgo.Record]bool
-	HookOrderBad string
+	hookMu                                sync.Mutex
+	BufCount                              map[*kgo.Record]int
+	UnbufCount                            map[*kgo.Record]int
+	UnbufPolled                           map[*kgo.Record]bool
+	HookOrderBad                          string
 	FinalBufferedRecs, FinalBufferedBytes int64
-	QuiescentBuffered []int64
-	PollErrs []string
-	PollsAfterCloseClosed bool
-	polls int
-	mu sync.Mutex
+	QuiescentBuffered                     []int64
+	PollErrs                              []string
+	PollsAfterCloseClosed                 bool
+	polls                                 int
+	mu                                    sync.Mutex
 }
 
 type consHooks struct{ o *ConsObs }
